@@ -1,6 +1,6 @@
 (* family 2: unsigned byte fields (spacepackets/util.py), property C20 *)
 From Coq Require Import ZArith List Bool.
-From SP Require Import Base.Result Base.Bytes Run.Marshal Model.Util Spec.UtilSpec.
+From SP Require Import Base.Result Base.Bytes Run.Marshal Model.Util Model.UtilHist Spec.UtilSpec.
 Import ListNotations.
 Open Scope Z_scope.
 
@@ -35,6 +35,40 @@ Fixpoint ubf_history (f : ubf) (ops : list (list Z)) : args :=
       end
   end.
 
+(* extended history on one live object (every public setter, same-value re-assignment):
+   [0; v] value = v | 1 :: octets value = bytes | 2 :: octets value = bytearray (the caller
+   overwrites its buffer afterwards) | [3; w] byte_len = w | [4] value = value |
+   [5] value = as_bytes | 6 :: octets value = the SAME bytearray object the caller assigned
+   before and has edited in place since (octets = its present content).  After EVERY op, accepted or refused: status line, the three view
+   lines of the object as it is now, and the line of equality / hash / rebuild verdicts the
+   adapter evaluates on the live object (all 1 in the model: they hold by definition of
+   ubf_eq / ubf_hash_key). *)
+Definition ubf_obs_any (f : ubf) : args :=
+  [[ubf_val f; ubf_len f; ubf_int f; ubf_pylen f]; ubf_as_bytes f; of_opt_list (ubf_hex_str_any f); [1; 1; 1; 1]].
+Definition ubf_hop_of (o : list Z) : option ubf_hop :=
+  match o with
+  | 0 :: v :: _ => Some (HSetInt v)
+  | 1 :: b => Some (HSetBytes b)
+  | 2 :: b => Some (HSetBytes b)
+  | 3 :: w :: _ => Some (HSetLen w)
+  | 4 :: _ => Some HSameInt
+  | 5 :: _ => Some HSameBytes
+  | 6 :: b => Some (HSetBytes b)
+  | _ => None
+  end.
+Fixpoint ubf_history_any (f : ubf) (ops : list (list Z)) : args :=
+  match ops with
+  | [] => []
+  | o :: rest =>
+      match ubf_hop_of o with
+      | None => [[1; 97]]
+      | Some op =>
+          let f' := ubf_happly f op in
+          (match ubf_hstep f op with Ok _ => [0] | Err e => [1; err_code e] end)
+            :: ubf_obs_any f' ++ ubf_history_any f' rest
+      end
+  end.
+
 Definition run_ubf (op : Z) (a : args) : args :=
   match op with
   | 200 => ret ubf_obs (ubf_of (lst 0 a))
@@ -57,6 +91,10 @@ Definition run_ubf (op : Z) (a : args) : args :=
   | 214 => ret ubf_obs (empty_new (int 0 0 a))
   | 215 => match ubf_of (lst 0 a) with
            | Ok f => ([0] :: ubf_obs f) ++ ubf_history f (tl a)
+           | Err e => ret_err e
+           end
+  | 217 => match ubf_of (lst 0 a) with
+           | Ok f => ([0] :: ubf_obs_any f) ++ ubf_history_any f (tl a)
            | Err e => ret_err e
            end
   (* from_bytes(f.as_bytes) == f for a constructed field *)
